@@ -302,8 +302,19 @@ func checkCRCWrappers(p *Program, r *Result) {
 		prm := ssa.Value(fn.Params[1])
 		hashed, forwarded := false, false
 		bad := ""
-		for _, ci := range callsIn(fn, func(ci ssa.CallInstruction) bool { return ci.Common().IsInvoke() && ci.Common().Method.Name() == "Write" }) {
+		for _, ci := range callsIn(fn, func(ssa.CallInstruction) bool { return true }) {
 			c := ci.Common()
+			// running CRC kept as a plain uint32: crc32.Update(crc, table, p)
+			if calleeIs(ci, "hash/crc32.Update") && len(c.Args) == 3 {
+				if c.Args[2] != prm {
+					bad = "crc32.Update in " + name + " is given " + valueLabel(c.Args[2]) + " instead of the caller's slice"
+				}
+				hashed = true
+				continue
+			}
+			if !c.IsInvoke() || c.Method.Name() != "Write" {
+				continue
+			}
 			isHash := hasMethod(c.Value.Type(), "Sum32") || hasMethod(c.Value.Type(), "Sum")
 			if c.Args[0] != prm {
 				bad = "a Write inside " + name + " is given " + valueLabel(c.Args[0]) + " instead of the caller's slice"
